@@ -70,7 +70,7 @@ func c06Discharger(c *core.Ctx, m *serverModel, rule string) Discharger {
 	tableOK, tableWhy := dispatchTableComplete(c, m, rule)
 	kindsOK, kindsWhy := kindStoresAreConstants(c, m, rule)
 	return func(fn *ssa.Function, s PanicSite) (bool, string) {
-		name := facts.FuncName(fn)
+		name := roleName(fn)
 		switch s.Kind {
 		case "ext-panic":
 			if s.Expr == "regexp.MustCompile" {
